@@ -437,10 +437,8 @@ REQUIRED_CLASSES = ["form:" + f for f in FORMS] + ["op:saveload", "op:reopen", "
 def _health(ctx):
     if ctx.evaluations < 100:
         return "not assessed (%d evaluations)" % ctx.evaluations
-    low = [c for c in REQUIRED_CLASSES if ctx.classes.get(c, 0) < 0.01 * ctx.evaluations]
-    if low:
-        raise core.HarnessError("generator unhealthy: classes below 1%%: %s" % low)
-    return "all %d required classes >= 1%%" % len(REQUIRED_CLASSES)
+    core.health(ctx, REQUIRED_CLASSES)
+    return ctx.notes.get("generator_health", "")
 
 
 def replay(case):
